@@ -6,7 +6,14 @@ from ..rules import builtins, exceptions, recursion
 def run(ctx, rep):
     builtins.rule_json_codec(ctx, rep, "C19-R1")
     exceptions.rule_catchable_classes(ctx, rep, "C19-R2", only_pred=lambda q: "_create_json_object" in q, floor=1)
-    recursion.rule_data_recursion_guarded(ctx, rep, "C19-R4", only=None, floor=1, only_pred=lambda q: "_create_json_object" in q)
-    recursion.rule_guard_state_is_per_call(ctx, rep, "C19-R4b", {"_create_json_object"})
+    _, _, conv = builtins._json_funcs(ctx)
+    cluster = {"_create_json_object"} | ({conv.qual} if conv is not None else set())
+
+    def in_json(q: str) -> bool:
+        return any(c in q for c in cluster)
+
+    recursion.rule_data_recursion_guarded(ctx, rep, "C19-R4", only=None, floor=1, only_pred=in_json)
+    recursion.rule_guard_state_is_per_call(ctx, rep, "C19-R4b", cluster)
+    recursion.rule_guard_passed_along(ctx, rep, "C19-R4c", only_pred=in_json)
     builtins.rule_json_omission(ctx, rep, "C19-R5")
     rep.undecided += ["parse(stringify(v)) structurally equal to v for all values, canonical form of stringify(parse(t)) (round-trip properties)"]
